@@ -362,6 +362,32 @@ func runC11(c *eng.Ctx) {
 		}
 	}
 
+	// a heartbeat that changes a registered volume's read-only flag always reports it as changed (so that the writable
+	// set is re-evaluated), whatever else changed in the same heartbeat
+	if fn := c.NeedFunc("weed/topology", "(*Disk).doAddOrUpdateVolume"); fn != nil {
+		isRO := func(in ssa.Instruction) bool {
+			b, ok := in.(*ssa.BinOp)
+			return ok && (b.Op == token.NEQ || b.Op == token.EQL) && eng.Mentions(b.X, 4, func(v ssa.Value) bool { return eng.IsField(v, "VolumeInfo.ReadOnly") }) && eng.Mentions(b.Y, 4, func(v ssa.Value) bool { return eng.IsField(v, "VolumeInfo.ReadOnly") })
+		}
+		found := eng.PassEdges(fn, eng.BoolVal(true, func(v ssa.Value) bool {
+			ex, ok := v.(*ssa.Extract)
+			if !ok || ex.Index != 1 {
+				return false
+			}
+			lk, isL := ex.Tuple.(*ssa.Lookup)
+			return isL && lk.CommaOk && eng.MentionsField(lk.X, "Disk.volumes")
+		}))
+		okRO := len(found) > 0 && len(eng.Find(fn, isRO)) > 0
+		why := ""
+		for _, st := range startsOf(found) {
+			if hit, path := eng.Search(st, eng.IsReturn, eng.SearchOpt{Barrier: isRO}); hit != nil {
+				okRO = false
+				why = "; path without the comparison: " + eng.DescribePath(c.P, fn, path)
+			}
+		}
+		c.Ob("REG-announced", eng.FuncName(fn)+" read-only-change-always-compared", okRO, fn.Pos(), "for a volume already registered the old and new read-only flags are compared on every path"+why)
+	}
+
 	// ---------------------------------------------------------------- REG-locations
 	// registering a replica always records its server in the volume's location list; unregistering removes it, forgets
 	// its read-only / oversized marks, re-evaluates writability and drops the volume when no replica is left
